@@ -1,3 +1,6 @@
+import PV.Model.Tools2
+import PV.Lemmas.Tools2
+import PV.Spec.FirstOcc
 import PV.Model.Table
 import PV.Spec.Map
 import PV.Lemmas.Table
@@ -49,5 +52,23 @@ theorem reachable_shape (ops : List Op) (h : ∀ op ∈ ops, opKey op ≠ 0) (an
 -- non-vacuity: a history that forces two doublings with wrap-around clusters (keys ≡ 7 mod 8)
 example : (run init ((List.range 20).map (fun i => Op.insert (8 * i + 7) i))).map (fun r => r.2.buckets) = some 32 := by
   decide +kernel
+
+/-! #### vocab (PV.Tools2): the seen-set over words -/
+section Vocab
+open PV.Tools PV.Tools2 PV.Spec.FirstOcc
+
+/-- vocab (through the real hash-table model) prints exactly the first occurrence of every distinct word (up to
+    64-bit collisions; a word hashing to the invalid key 0 is excluded), NUL-terminated, in order. -/
+theorem vocab_first_occurrences (input : List UInt8) (h0 : ∀ w ∈ vocabWords input, wordKey w ≠ 0) :
+    vocab input = some ((firstOccBy wordKey (vocabWords input)).flatMap (· ++ [0])) := by
+  have h := PV.Lemmas.Tools.dedupeLoop_spec wordKey (vocabWords input) PV.Table.init []
+    PV.Lemmas.Table.init_inv PV.Lemmas.Table.init_abs h0
+  simp only [vocab, dedupe, h, Option.map_some]
+  rfl
+
+-- non-vacuity
+example : vocabWords [98, 32, 97, 32, 32, 98, 9, 99, 10, 97] = [[98], [97], [98], [99], [97]] := by decide
+
+end Vocab
 
 end PV.Props.C13
